@@ -3,7 +3,11 @@ package props
 import (
 	"time"
 
+	"github.com/bluenviron/gomavlib/v3"
+	"github.com/bluenviron/gomavlib/v3/pkg/frame"
+
 	"verif/dsim"
+	"verif/ref"
 )
 
 // C15 — concurrent use of a node is free of data races.
@@ -19,7 +23,7 @@ import (
 
 func c15Body() func(h []dsim.Rec) {
 	dsim.MuteFailures()
-	switch dsim.Choose(10) {
+	switch dsim.Choose(13) {
 	case 0:
 		c10Body()
 	case 1:
@@ -36,11 +40,106 @@ func c15Body() func(h []dsim.Rec) {
 		c08Chain()
 	case 8, 9:
 		c15CloseWhileOpening()
+	case 10, 11:
+		c15Router()
+	case 12:
+		c15Reuse()
 	case 7:
 		fanoutRun(fanOpt{rejected: true, streamReq: true, check: func(*env, []*link, []*link, [][]fanItem) {}})
 	}
 	dsim.Record("race-workload", "", nil)
 	return nil
+}
+
+// c15Router: an application that forwards (and sometimes edits + FixFrames) every received
+// frame while stream requests are on and ArduPilot systems announce themselves: the reader
+// goroutines inspect the same frames the application forwards.
+func c15Router() {
+	cfg := genNodeCfg()
+	cfg.hbPeriod = 500 * time.Millisecond
+	cfg.srEnable = true
+	e := newEnv(cfg)
+	e.w.ChunkMode = dsim.Choose(3)
+	dsim.SetDate(time.Date(2026, 6, 2, 0, 0, 0, 0, time.UTC))
+	n := 2 + dsim.Choose(2)
+	for i := 0; i < n; i++ {
+		e.addEndpoint(dsim.Pick(epCustom, epTCPServer, epUDPServer))
+	}
+	d := &driverSet{e: e}
+	cons := &consumer{e: e, route: true, edit: dsim.Choose(2) == 1}
+	e.cons = cons
+	e.peerAPHeartbeats = true
+	e.drivePeers(d, false, false, 8)
+	if err := e.startNode(); err != nil {
+		return
+	}
+	dsim.Go("router", cons.run)
+	d.wait(60 * time.Second)
+	dsim.Sleep(2 * time.Second)
+	e.node.Close()
+}
+
+// c15Reuse: applications that reuse what they pass to the node: one message struct mutated
+// between Write* calls, one frame object written to several channels one after the other.
+func c15Reuse() {
+	cfg := genNodeCfg()
+	cfg.dialectKind = 0
+	cfg.hbDisable = true
+	e := newEnv(cfg)
+	dsim.SetDate(time.Date(2026, 6, 3, 0, 0, 0, 0, time.UTC))
+	n := 2 + dsim.Choose(2)
+	for i := 0; i < n; i++ {
+		e.addEndpoint(dsim.Pick(epCustom, epTCPServer))
+	}
+	d := &driverSet{e: e}
+	cons := &consumer{e: e}
+	e.cons = cons
+	e.drivePeers(d, false, false, 2)
+	if err := e.startNode(); err != nil {
+		return
+	}
+	dsim.Go("consumer", cons.run)
+	dsim.Sleep(2500 * time.Millisecond)
+	chans := e.openChannels()
+	// (a) one message struct, mutated after each call returns
+	m := tagMsg(1, 0, 0, 0)
+	for i := 0; i < 12; i++ {
+		m.Index = uint32(i)
+		m.Aux = uint16(i * 3)
+		var target *gomavlib.Channel
+		if len(chans) > 0 {
+			target = chans[dsim.Choose(len(chans))]
+		}
+		switch dsim.Choose(3) {
+		case 0:
+			e.node.WriteMessageAll(m) //nolint
+		case 1:
+			e.node.WriteMessageTo(target, m) //nolint
+		case 2:
+			e.node.WriteMessageExcept(target, m) //nolint
+		}
+	}
+	// (b) one frame object routed to the channels one at a time, decoded and raw
+	for round := 0; round < 3; round++ {
+		f := &ref.Frame{V2: cfg.version == 2, Seq: byte(round), Sys: 77, Comp: 7, MsgID: ref.DefTag.ID}
+		f.Payload = ref.DefTag.Encode(tagVals(2, 0, uint32(round), 0), f.V2)
+		f.Checksum = f.ComputeChecksum(ref.DefTag.CRCExtra())
+		fr := fromRef(f)
+		if round%2 == 0 {
+			switch x := fr.(type) {
+			case *frame.V1Frame:
+				x.Message = tagMsg(2, 0, uint32(round), 0)
+			case *frame.V2Frame:
+				x.Message = tagMsg(2, 0, uint32(round), 0)
+			}
+		}
+		for _, ch := range chans {
+			e.node.WriteFrameTo(ch, fr) //nolint
+		}
+		e.node.WriteFrameAll(fr) //nolint
+	}
+	dsim.Sleep(time.Second)
+	e.node.Close()
 }
 
 // c15CloseWhileOpening: Close lands a drawn number of scheduling steps after Initialize, while
